@@ -613,15 +613,18 @@ func AddClient(group string, c Client, creds ClientCredentials) (*Group, error) 
 
 	clients := g.getClientsUnlocked(nil)
 
+	var username string
+	var perms []string
+	initClient := false
 	if !slices.Contains(c.Permissions(), "system") {
-		username, perms, err := g.description.GetPermission(
+		var err error
+		username, perms, err = g.description.GetPermission(
 			g.name, creds,
 		)
 		if err != nil {
 			return nil, err
 		}
-
-		c.Init(username, perms)
+		initClient = true
 
 		if !slices.Contains(perms, "op") {
 			if g.locked != nil {
@@ -679,6 +682,10 @@ func AddClient(group string, c Client, creds ClientCredentials) (*Group, error) 
 	}
 	if g.clients[id] != nil {
 		return nil, ProtocolError("duplicate client id")
+	}
+	if initClient {
+		// only now: a refused client must not hold any permissions
+		c.Init(username, perms)
 	}
 	g.clients[id] = c
 	g.timestamp = time.Now()
